@@ -157,7 +157,11 @@ def marshal(
                     # all bytes were depleted
                     return obj
             except ConstraintViolatedError as error:
-                bytes_remaining = bytes(itertools.chain((byte,), buffer_iter))
+                if buffer_depleted:
+                    # the look-ahead byte is stale: it was already consumed by the processor
+                    bytes_remaining = b""
+                else:
+                    bytes_remaining = bytes(itertools.chain((byte,), buffer_iter))
                 error.set_bytes_remaining(bytes_remaining)
                 raise error
 
